@@ -116,4 +116,5 @@ pub fn run(eng: &mut Engine) {
         || strategy(thorough),
         check,
     );
+    crate::props::readfaults::add_part(eng, crate::props::readfaults::Kind::Audit);
 }
